@@ -267,10 +267,12 @@ theorem object_rendered (items : List (List Char × Cell)) (rest : List Char) (h
         '{' :: (jsonMember Dev.fixed it.1 it.2 ++ (items.flatMap (fun it => ',' :: ' ' :: jsonMember Dev.fixed it.1 it.2) ++ '}' :: rest)) := by
       simp [joinWith_cons, List.flatMap_map]
     rw [e]
-    simp only [object]
-    rw [ht, List.cons_append, skipWs_nonws '"' _ (by decide)]
-    simp only
-    rw [← List.cons_append, ← ht, hm]
+    rw [ht] at hm ⊢
+    simp only [List.cons_append, List.append_assoc] at hm ⊢
+    simp only [object, skipWs_nonws '"' _ (by decide : isWsJ '"' = false)]
+    split
+    · rename_i heq; simp at heq
+    rw [hm]
     simp only
     rw [membersTail_rendered items _ rest (fun x hx => hok x (by simp [hx]))]
     · simp
@@ -282,5 +284,121 @@ theorem object_rendered (items : List (List Char × Cell)) (rest : List Char) (h
       have := this items
       simp only [List.length_append, List.length_cons]
       omega
+
+end IQE.Engine.CliOutput
+
+namespace IQE.Engine.CliOutput
+open IQE.Spec.JsonTable
+
+/-! ### rows, the whole text -/
+
+def rowText (items : List (List Char × Cell)) : List Char :=
+  '{' :: joinWith [',', ' '] (items.map (fun it => jsonMember Dev.fixed it.1 it.2)) ++ ['}']
+
+def rowVal (items : List (List Char × Cell)) : Row := items.map (fun it => (it.1, scalarOf it.2))
+
+theorem object_rowText (items : List (List Char × Cell)) (rest : List Char) (hok : ∀ it ∈ items, cellOk it.2 = true) :
+    object (rowText items ++ rest) = some (rowVal items, rest) := by
+  have := object_rendered items rest hok
+  simpa [rowText, rowVal] using this
+
+theorem elementsTail_rendered : ∀ (rows : List (List (List Char × Cell))) (fuel : Nat) (tail : List Char),
+    (∀ items ∈ rows, ∀ it ∈ items, cellOk it.2 = true) → rows.length < fuel →
+    elementsTail fuel (rows.flatMap (fun items => ',' :: '\n' :: ' ' :: ' ' :: rowText items) ++ '\n' :: ']' :: tail) =
+      some (rows.map rowVal, tail)
+  | [], fuel, tail, _, hf => by
+    cases fuel with
+    | zero => simp at hf
+    | succ f =>
+      simp only [List.flatMap_nil, List.nil_append, elementsTail]
+      rw [skipWs_lf, skipWs_nonws ']' _ (by decide)]
+      simp
+  | items :: rows, fuel, tail, hok, hf => by
+    cases fuel with
+    | zero => simp at hf
+    | succ f =>
+      have ih := elementsTail_rendered rows f tail (fun x hx => hok x (by simp [hx])) (by simp at hf; omega)
+      have ho := object_rowText items (rows.flatMap (fun items => ',' :: '\n' :: ' ' :: ' ' :: rowText items) ++ '\n' :: ']' :: tail)
+        (hok items (by simp))
+      have hb : ∃ t, rowText items = '{' :: t := ⟨_, rfl⟩
+      obtain ⟨t, ht⟩ := hb
+      simp only [List.flatMap_cons, List.append_assoc, List.cons_append, elementsTail]
+      rw [skipWs_nonws ',' _ (by decide)]
+      simp only
+      rw [skipWs_lf, skipWs_space, skipWs_space]
+      rw [ht, List.cons_append, skipWs_nonws '{' _ (by decide), ← List.cons_append, ← ht, ho]
+      simp only
+      rw [ih]
+      simp
+
+theorem zipWith_eq_map_zip {α β γ} (f : α → β → γ) : ∀ (l : List α) (m : List β),
+    List.zipWith f l m = (List.zip l m).map (fun p => f p.1 p.2)
+  | [], _ => by simp
+  | _ :: _, [] => by simp
+  | a :: l, b :: m => by simp [zipWith_eq_map_zip f l m]
+
+theorem jsonRow_eq (names : List (List Char)) (row : List Cell) :
+    jsonRow Dev.fixed names row = ' ' :: ' ' :: rowText (List.zip names row) := by
+  simp [jsonRow, rowText, zipWith_eq_map_zip]
+
+/-- **Table law**: what `write_json` prints for ANY names and rows of covered cells reads back as those rows. -/
+theorem parse_rendered (names : List (List Char)) (rows : List (List Cell)) (hok : ∀ r ∈ rows, ∀ c ∈ r, cellOk c = true) :
+    IQE.Spec.JsonTable.parse (renderJson Dev.fixed false names rows) =
+      some (rows.map (fun row => rowVal (List.zip names row))) := by
+  have hok' : ∀ items ∈ rows.map (fun row => List.zip names row), ∀ it ∈ items, cellOk it.2 = true := by
+    intro items hi it hit
+    simp only [List.mem_map] at hi
+    obtain ⟨row, hr, rfl⟩ := hi
+    exact hok row hr it.2 (List.of_mem_zip hit).2
+  cases rows with
+  | nil =>
+    have : renderJson Dev.fixed false names [] = ['[', '\n', '\n', ']', '\n'] := rfl
+    rw [this, List.map_nil]; decide
+  | cons r0 rs =>
+    have e : renderJson Dev.fixed false names (r0 :: rs) =
+        '[' :: '\n' :: ' ' :: ' ' :: (rowText (List.zip names r0) ++
+          ((rs.map (fun row => List.zip names row)).flatMap (fun items => ',' :: '\n' :: ' ' :: ' ' :: rowText items) ++ '\n' :: ']' :: ['\n'])) := by
+      simp [renderJson, joinWith_cons, jsonRow_eq, List.flatMap_map]
+    have ho := object_rowText (List.zip names r0)
+      ((rs.map (fun row => List.zip names row)).flatMap (fun items => ',' :: '\n' :: ' ' :: ' ' :: rowText items) ++ '\n' :: ']' :: ['\n'])
+      (hok' _ (by simp))
+    have hb : ∃ t, rowText (List.zip names r0) = '{' :: t := ⟨_, rfl⟩
+    obtain ⟨t, ht⟩ := hb
+    rw [e]
+    unfold IQE.Spec.JsonTable.parse
+    rw [skipWs_nonws '[' _ (by decide)]
+    simp only
+    rw [skipWs_lf, skipWs_space, skipWs_space, ht, List.cons_append, skipWs_nonws '{' _ (by decide)]
+    rw [ht, List.cons_append] at ho
+    have hlen : (rs.map (fun row => List.zip names row)).length <
+        ((rs.map (fun row => List.zip names row)).flatMap (fun items => ',' :: '\n' :: ' ' :: ' ' :: rowText items) ++ '\n' :: ']' :: ['\n']).length + 1 := by
+      have : ∀ l : List (List (List Char × Cell)), l.length ≤ (l.flatMap (fun items => ',' :: '\n' :: ' ' :: ' ' :: rowText items)).length := by
+        intro l
+        induction l with
+        | nil => simp
+        | cons j js ih => simp only [List.flatMap_cons, List.length_append, List.length_cons]; omega
+      have := this (rs.map (fun row => List.zip names row))
+      simp only [List.length_append, List.length_cons]
+      omega
+    have het := elementsTail_rendered (rs.map (fun row => List.zip names row)) _ ['\n']
+      (fun items hi => hok' items (by simp only [List.map_cons, List.mem_cons]; exact Or.inr hi)) hlen
+    split
+    · rename_i heq
+      split at heq
+      · rename_i h2; simp at h2
+      rw [ho] at heq
+      simp only at heq
+      rw [het] at heq
+      simp at heq
+    · rename_i rows' r' heq
+      split at heq
+      · rename_i h2; simp at h2
+      rw [ho] at heq
+      simp only at heq
+      rw [het] at heq
+      simp only [Option.map_some, Option.some.injEq, Prod.mk.injEq] at heq
+      obtain ⟨h1, h2⟩ := heq
+      subst h1 h2
+      simp [skipWs, isWsJ]
 
 end IQE.Engine.CliOutput
